@@ -5,7 +5,7 @@ import os
 
 TRUSTED_COMMON = [
     "Coq 8.16.1 kernel (coqc); vm_compute for finite sweeps and for evaluating the models on the generated cases; no native_compute",
-    "tools/gen.py (regex translator /repo/src -> coq/gen/*.v; fails closed)",
+    "tools/gen.py (translator /repo/src -> coq/gen/*.v: regex extraction of constants, tables, layouts, the temp-file counter program; a small recursive-descent translator of the one-expression helpers of bits.rs (Funs.v) and of the straight-line integer functions listed in its FUNS2 table (Funs2.v) into Gallina over the mode-dependent checked operations of Model/Mach.v; fails closed)",
     "the hand-written models in coq/Model are tied to the Rust only by the correspondence run (harness/ + coq/Check)",
     "rustc/LLVM, Rust core intrinsics as modelled in Model/Bits.v, 64-bit little-endian target",
 ]
